@@ -6,7 +6,7 @@ use super::*;
 use crate::verif_support::Src;
 use alloc::{vec, vec::Vec}; // for generated concrete-playback tests (no_std crate)
 
-//@ tier: thorough
+//@ tier: attempt
 //@ timeout: 2400
 //@ inst: T = u8, source = Src (counting source with an arbitrary lawful size_hint)
 //@ funcs: rc_lazy_list::List::from_iter, List::next, Node::from_iter, List::clone
